@@ -234,7 +234,12 @@ def main(pid, tier, seed, replay):
                     chk.finding("C24-compiled-float-relation-merges-signed-zeros", "", None)
                     continue
                 zero = {("f", 0), ("f", 0x80000000)}
-                if "feq" in name and not (got - exp) and all(set(r) == zero for r in exp - got):
+                isnan = lambda v: v[0] == "f" and (v[1] & 0x7F800000) == 0x7F800000 and (v[1] & 0x7FFFFF) != 0
+                # the recorded finding: float `=` / `!=` compare bit patterns -- the only rows that may differ from IEEE
+                # equality are pairs of differently signed zeros (IEEE: equal) and pairs of one NaN pattern (IEEE: unequal)
+                zeros_only = lambda rows: all(set(r) == zero for r in rows)
+                nans_only = lambda rows: all(len(r) == 2 and r[0] == r[1] and isnan(r[0]) for r in rows)
+                if ("feq" in name and zeros_only(exp - got) and nans_only(got - exp)) or ("fne" in name and nans_only(exp - got) and zeros_only(got - exp)):
                     chk.finding("C24-float-eq-signed-zero", "", None)
                     continue
                 chk.finding(None, "operator %s (%s): souffle and the value semantics differ; expected-but-missing %s, unexpected %s" % (name, mode, miss, extra),
